@@ -160,16 +160,23 @@ Definition w_code : ir :=
 Definition C08_statement : Prop :=
   forall i t1, c05_domain i = true -> emit_rest i = Ok t1 -> C08_rest_at i.
 
-Lemma w_code_facts :
-  c05_domain w_code = true /\ (match emit_rest w_code with Ok _ => true | Err _ => false end) = true
-  /\ C08_rest_at_b w_code = false /\ finding_class_C08 KRest w_code = Some K05_code_default.
-Proof. vm_compute. repeat split; reflexivity. Qed.
+Lemma w_code_domain : c05_domain w_code = true.
+Proof. vm_compute. reflexivity. Qed.
+
+Lemma w_code_emits : exists t1, emit_rest w_code = Ok t1.
+Proof. eexists. vm_compute. reflexivity. Qed.
+
+Lemma w_code_drifts : C08_rest_at_b w_code = false.
+Proof. vm_compute. reflexivity. Qed.
+
+Lemma w_code_class : finding_class_C08 KRest w_code = Some K05_code_default.
+Proof. vm_compute. reflexivity. Qed.
 
 Lemma C08_refuted_lemma : ~ C08_statement.
 Proof.
-  intros H. destruct w_code_facts as [Hd [He [Hb _]]].
-  destruct (emit_rest w_code) as [t1|] eqn:E; [|discriminate].
-  pose proof (C08_rest_at_b_complete _ (H w_code t1 Hd E)) as Hc. rewrite Hb in Hc. discriminate.
+  intros H. destruct w_code_emits as [t1 E].
+  pose proof (C08_rest_at_b_complete _ (H w_code t1 w_code_domain E)) as Hc.
+  rewrite w_code_drifts in Hc. discriminate.
 Qed.
 
 Lemma w_safe_c08 : guard_C08 KRest C05Facts.w_safe = true /\ C08_rest_at_b C05Facts.w_safe = true.
